@@ -461,6 +461,10 @@ func (p *TapPacket) String() string {
 			fs = append(fs, fmt.Sprintf("STREAM%d[%d+%d%s]", f.StreamID, f.Offset, f.Length, map[bool]string{true: " FIN"}[f.Fin]))
 		case "ACK":
 			fs = append(fs, fmt.Sprintf("ACK%v", f.Ranges))
+		case "NEW_CONNECTION_ID":
+			fs = append(fs, fmt.Sprintf("NEW_CONNECTION_ID(seq %d, retire prior to %d, %x)", f.Seq, f.RetirePT, f.CID))
+		case "RETIRE_CONNECTION_ID":
+			fs = append(fs, fmt.Sprintf("RETIRE_CONNECTION_ID(%d)", f.Seq))
 		default:
 			fs = append(fs, f.Name)
 		}
